@@ -58,7 +58,18 @@ def nd_cases(rng, tier):
                     shape = [rng.randint(lo, 4 if ndim > 1 else 6) for _ in range(ndim)]
                     dxs = [rng.choice([1.0, 0.5, 2.0, 0.25]) for _ in range(ndim)]
                     c = float(rng.choice([0, 0, 0, 1, -2])) if p == 'constant' else 0.0
-                    space = odl.uniform_discr([0.0] * ndim, [n * d for n, d in zip(shape, dxs)], shape)
+                    # grid placement: nodes in the cell centres, or on the boundary per axis/side -- the
+                    # operators must take their step from space.cell_sides (= grid stride) in every case
+                    bdry = rng.choice([None, None, True, 'mixed'])
+                    if bdry is None:
+                        space = odl.uniform_discr([0.0] * ndim, [n * d for n, d in zip(shape, dxs)], shape)
+                    else:
+                        flags = ([(True, True)] * ndim if bdry is True else
+                                 [(rng.random() < 0.5, rng.random() < 0.5) for _ in range(ndim)])
+                        # extent chosen so that the cell side is exactly dxs[i]: side * (n - (bl + br) / 2)
+                        ext = [d * (n - (int(fl[0]) + int(fl[1])) / 2.0) for n, d, fl in zip(shape, dxs, flags)]
+                        space = odl.uniform_discr([0.0] * ndim, ext, shape, nodes_on_bdry=flags)
+                        assert np.allclose(space.cell_sides, dxs)
                     if kind == 'pd':
                         ax = rng.randrange(ndim)
                         op = odl.PartialDerivative(space, ax, method=m, pad_mode=p, pad_const=c)
@@ -96,9 +107,28 @@ def nd_cases(rng, tier):
     return cs
 
 
+_COV = {}
+
+
+def extra_coverage():
+    return {'anchored_line_coverage_during_correspondence': _COV}
+
+
 def correspondence(rng, tier):
+    import odl
+    from odl.discr import diff_ops as D
+    with C.LineTrace([D.finite_diff, D.PartialDerivative._call, D.Gradient._call, D.Divergence._call,
+                      D.Laplacian._call, D.Gradient.adjoint.fget, D.Divergence.adjoint.fget,
+                      D.PartialDerivative.adjoint.fget, D.Laplacian.adjoint.fget]) as lt:
+        res = _correspondence(rng, tier)
+    _COV.clear()
+    _COV.update(lt.report())
+    return res
+
+
+def _correspondence(rng, tier):
     cs = C.CaseSet('fd1d', ['C13.Syntax', 'Gen.FiniteDiff', 'C13.Model', 'C13.Corr'], 'check1', 'case1')
-    sizes = range(2, 8) if tier == 'quick' else range(2, 11)
+    sizes = range(1, 8) if tier == 'quick' else range(1, 11)
     nrand = 2 if tier == 'quick' else 6
     for m, p, n in itertools.product(METHS, PMODES, sizes):
         vecs = [[1.0 if i == j else 0.0 for i in range(n)] for j in range(n)]
@@ -226,6 +256,42 @@ def probes(rng, tier):
             out.append(C.Probe(bool(ok), 'affine-derivative-%s-%s' % (kind, m),
                                '%s with pad_const=%r: derivative is the zero-padding operator and the operator is flagged nonlinear' % (kind, c),
                                None, {'shape': shape}))
+    # nodes on the boundary: every operator divides by space.cell_sides (the grid stride), and
+    # Divergence stays minus the transpose of Gradient
+    for flags in (True, [(True, False), (False, True)], [(False, False), (True, True)]):
+        for m in METHS:
+            shape = [rng.randint(3, 5), rng.randint(3, 5)]
+            sp = odl.uniform_discr([0, 0], [1, 3], shape, nodes_on_bdry=flags)
+            rp = ("import odl, numpy as np, sys\nsys.path.insert(0, %r)\nfrom harness.c13 import _matrix, _ref_fd\n"
+                  "sp=odl.uniform_discr([0,0],[1,3],%r,nodes_on_bdry=%r)\nm=%r\n"
+                  "G=_matrix(odl.Gradient(sp,method=m,pad_mode='symmetric')); D=_matrix(odl.Divergence(range=sp,method={'forward':'backward','backward':'forward','central':'central'}[m],pad_mode='symmetric_adjoint'))\n"
+                  "x=np.arange(float(np.prod(sp.shape))).reshape(sp.shape)**2\n"
+                  "pd=np.asarray(odl.PartialDerivative(sp,1,method=m,pad_mode='order1')(x))\n"
+                  "want=np.array([_ref_fd(r,m,'order1',0.0,sp.cell_sides[1]) for r in x])\n"
+                  "dv=np.asarray(odl.Divergence(range=sp,method=m,pad_mode='order1')([x,x]))\n"
+                  "dwant=np.array([_ref_fd(c,m,'order1',0.0,sp.cell_sides[0]) for c in x.T]).T+want\n"
+                  "observed=[float(abs(D+G.T).max()),float(abs(pd-want).max()),float(abs(dv-dwant).max())]; expected=[0,0,0]\n"
+                  "ok=bool(np.allclose(D,-G.T,atol=1e-12) and np.allclose(pd,want,atol=1e-10) and np.allclose(dv,dwant,atol=1e-10))\n"
+                  % (C.VERIF, shape, flags, m))
+            env = {}
+            try:
+                exec(rp, env); ok = env['ok']
+            except Exception:
+                ok = False
+            out.append(C.Probe(ok, 'nodes-on-bdry-step-%s' % m,
+                               'PartialDerivative/Divergence use cell_sides and Divergence = -Gradient^T with nodes_on_bdry=%r, shape %s' % (flags, shape), rp))
+    # the set of pad modes Laplacian accepts is the set the self-adjointness theorem covers (lap_mode)
+    sp2 = odl.uniform_discr([0, 0], [3, 3], [3, 3])
+    for p in PMODES:
+        try:
+            odl.Laplacian(sp2, pad_mode=p)
+            accepted = True
+        except ValueError:
+            accepted = False
+        out.append(C.Probe(accepted == (p in LAP_MODES), 'laplacian-modes-%s' % p,
+                           'Laplacian accepts pad_mode=%r iff it is one of the six modes of lap_mode (C13/ProofsLap.v)' % p,
+                           "import odl\nsp=odl.uniform_discr([0,0],[3,3],[3,3])\ntry:\n    odl.Laplacian(sp,pad_mode=%r); acc=True\n"
+                           "except ValueError:\n    acc=False\nobserved=acc; expected=%r; ok=(acc==expected)\n" % (p, p in LAP_MODES)))
     # complex dtype: acts on real and imaginary parts separately
     for m, p in itertools.product(METHS, PMODES):
         n = rng.randint(3, 6)
@@ -245,10 +311,15 @@ LEVEL_TEXT = ('Proof: for the tables regenerated from finite_diff on every run, 
               '(short axes included), every entry and pad constant that each (method, base padding) pair equals the '
               'textbook stencil on the extended array / dx, and that for all 30 (method, padding) pairs the operator '
               'named by _ADJ_METHOD/_ADJ_PADDING is exactly minus the transpose (<Df,g> = -<f,D\'g> for all f,g). '
+              'Both statements are lifted to arrays of EVERY shape and every axis (Lib/AxisR: adjoint, extensionality '
+              'and additivity of apply-along-axis): PartialDerivative, Gradient* = -Divergence, Divergence* = -Gradient, '
+              'the Laplacian is self-adjoint with the SAME pad mode for the six modes the class accepts, and the '
+              'constant-padding variant is affine with the zero-padding scheme as exact difference quotient. '
               'order2 x forward/backward is proved to violate the literal statement (recorded finding) and what it '
               'computes instead is proved. The interpreter is tied to the code by an exact correspondence on all '
-              'modes x sizes 2..7.')
+              'modes x sizes 2..7 and on the N-d operators (1-3 d).')
 LEVEL_NOTE = ('Trusted: the translator (fail-closed, small grammar), the hand-written interpreter of sequential '
-              'out[k] = / += / -= statements (validated by the correspondence incl. aliasing on sizes 2-4), NumPy '
-              'slicing; exact arithmetic (rounding out of scope). Axioms: classical reals + funext as printed.')
-TECHNIQUE = 'Coq proof by list induction (summation by parts) over source-regenerated tables + in-Coq differential correspondence'
+              'out[k] = / += / -= statements (validated by the correspondence incl. aliasing on sizes 2-4), the N-d '
+              'composition model C13/ModelNd.v (validated by the N-d correspondence), NumPy slicing; exact arithmetic '
+              '(rounding out of scope); complex dtype validated by probes only. Axioms: classical reals + funext as printed.')
+TECHNIQUE = 'Coq proof by list induction (summation by parts, N-d lift through transposition lemmas) over source-regenerated tables + in-Coq differential correspondence'
